@@ -1,10 +1,385 @@
 //! C02 seam 2 — the close code really sent by a connection for malformed / truncated frames.
+//!
+//! The frame strings for which the reference demands H3_FRAME_ERROR are put on the request stream
+//! and on the control stream of a real server and a real client connection over simnet (after a
+//! valid preamble), delivered whole, one byte per read and under every execution with at most
+//! `bound` delivery deviations. Observed: the code passed to the transport's `close()`, the error
+//! the driver and the request API report, and that no call is left pending at quiescence.
+
+use crate::scen::*;
 use crate::Args;
-use explore::report::Acc;
-use serde_json::Value;
+use explore::dfs::{self, Caps};
+use explore::report::{Acc, Tier, ViolSet};
+use explore::{hex, Fnv};
+use refimpl::frames as rf;
+use refimpl::varint;
+use serde_json::{json, Value};
+use simnet::exec::yield_now;
+use simnet::{Exec, Net, NetCfg, Policy, SimConn, CLIENT, SERVER};
 
-pub fn run_into(_args: &Args, _acc: &mut Acc) {}
+const FRAME_ERROR: u64 = 0x106;
+const FRAME_UNEXPECTED: u64 = 0x105;
+const SETTINGS_ERROR: u64 = 0x109;
+const CLOSED_CRITICAL: u64 = 0x104;
+const MISSING_SETTINGS: u64 = 0x10a;
+const HORIZON: usize = 6000;
 
-pub fn replay(_r: &Value) -> i32 {
-    2
+#[derive(Clone, Copy, Debug, PartialEq, Eq)]
+pub enum Where {
+    Request,
+    Control,
+}
+
+#[derive(Clone, Copy, Debug, PartialEq, Eq)]
+pub enum Mode {
+    Whole,
+    PerByte,
+    Explore,
+}
+
+#[derive(Clone, Debug)]
+pub struct Case {
+    pub server: bool,
+    pub place: Where,
+    /// the faulty bytes, written after the valid preamble of the stream
+    pub bytes: Vec<u8>,
+    pub fin: bool,
+    pub mode: Mode,
+    /// close codes the reference accepts (first = the one the property names)
+    pub accept: Vec<u64>,
+    pub why: &'static str,
+}
+
+#[derive(Debug, Clone, Default, PartialEq, Eq)]
+pub struct Outcome {
+    pub close_codes: Vec<u64>,
+    pub driver: Vec<String>,
+    pub build: String,
+    pub msg: Option<MsgObs>,
+    pub panics: Vec<String>,
+    pub pending: Vec<String>,
+    pub horizon: bool,
+}
+
+pub fn execute(case: &Case, seed: u64) -> Outcome {
+    fastrand::seed(seed);
+    let mut cfg = NetCfg::default();
+    let target: u64 = match (case.place, case.server) {
+        (Where::Request, _) => 0,
+        (Where::Control, true) => CLIENT_CTRL,
+        (Where::Control, false) => SERVER_CTRL,
+    };
+    match case.mode {
+        Mode::PerByte => cfg.read = Policy::PerByte,
+        Mode::Explore => {
+            cfg.read = Policy::Choose;
+            cfg.allow_delay = true;
+            cfg.focus = Some(vec![target]);
+        }
+        Mode::Whole => {}
+    }
+    let net = Net::new(cfg);
+    let mut ex = Exec::new();
+    let drv = shared(DriverObs::default());
+    let handlers: Shared<Vec<Shared<MsgObs>>> = shared(Vec::new());
+    let client_msg = shared(MsgObs::default());
+    let (me, peer) = if case.server { (SERVER, CLIENT) } else { (CLIENT, SERVER) };
+    if case.server {
+        let mut b = h3::server::builder();
+        b.send_grease(false);
+        ex.spawn("main", server_main(net.clone(), b, ex.spawner(), drv.clone(), handlers.clone(), false, 1));
+    } else {
+        let (net2, drv2, msg2, sp) = (net.clone(), drv.clone(), client_msg.clone(), ex.spawner());
+        ex.spawn("main", async move {
+            let mut b = h3::client::builder();
+            b.send_grease(false);
+            let (mut conn, mut sr): (CliConn, CliSend) = match b.build(SimConn::new(&net2, CLIENT)).await {
+                Ok(x) => x,
+                Err(e) => {
+                    drv2.borrow_mut().build = conn_class(&e);
+                    return;
+                }
+            };
+            drv2.borrow_mut().build = "ok".into();
+            let drv3 = drv2.clone();
+            sp.spawn("driver", async move {
+                for _ in 0..2 {
+                    drv3.borrow_mut().in_call = true;
+                    let e = std::future::poll_fn(|cx| conn.poll_close(cx)).await;
+                    drv3.borrow_mut().in_call = false;
+                    drv3.borrow_mut().results.push(conn_class(&e));
+                }
+                std::future::pending::<()>().await;
+                drop(conn);
+            });
+            let req = http::Request::get("https://a/").body(()).unwrap();
+            match sr.send_request(req).await {
+                Ok(mut s) => {
+                    if let Err(e) = s.finish().await {
+                        msg2.borrow_mut().sent = stream_class(&e);
+                    }
+                    client_reader(s, msg2.clone()).await;
+                }
+                Err(e) => msg2.borrow_mut().head = format!("send_request:{}", stream_class(&e)),
+            }
+            std::future::pending::<()>().await;
+            drop(sr);
+        });
+    }
+    {
+        let net = net.clone();
+        let case = case.clone();
+        ex.spawn("script", async move {
+            let ctrl = if peer == CLIENT { CLIENT_CTRL } else { SERVER_CTRL };
+            net.raw_open(ctrl);
+            net.raw_write(peer, ctrl, &control_preamble(&[]));
+            yield_now().await;
+            match case.place {
+                Where::Control => {
+                    net.raw_write(peer, ctrl, &case.bytes);
+                    if case.fin {
+                        net.raw_fin(peer, ctrl);
+                    }
+                }
+                Where::Request => {
+                    if peer == CLIENT {
+                        net.raw_open(0);
+                    } else {
+                        let mut spins = 0;
+                        while !net.lock().streams.contains_key(&0) {
+                            spins += 1;
+                            if spins > 200 {
+                                return;
+                            }
+                            yield_now().await;
+                        }
+                    }
+                    // a valid message head first, so that the faulty frame is met in the body phase
+                    let head = headers_frame(if peer == CLIENT { REQ_SECTION } else { RESP_SECTION });
+                    let mut all = head.clone();
+                    all.extend_from_slice(&case.bytes);
+                    net.raw_write(peer, 0, &all);
+                    net.raw_mark(peer, 0, case.bytes.len());
+                    if case.fin {
+                        net.raw_fin(peer, 0);
+                    }
+                }
+            }
+        });
+    }
+    let q = ex.run(HORIZON, |_| {});
+    let msg = if case.server { handlers.borrow().first().map(|m| m.borrow().clone()) } else { Some(client_msg.borrow().clone()) };
+    let d = drv.borrow().clone();
+    let mut pending = q.pending.clone();
+    pending.retain(|p| p != "script");
+    Outcome { close_codes: net.close_calls(me).iter().map(|c| c.0).collect(), driver: d.results, build: d.build, msg, panics: q.panics.iter().map(|(t, p)| format!("{t}: {p}")).collect(), pending, horizon: q.horizon_hit }
+}
+
+pub fn judge(case: &Case, o: &Outcome) -> Vec<(String, String)> {
+    let role = if case.server { "server" } else { "client" };
+    let place = if case.place == Where::Request { "request" } else { "control" };
+    let ctx = format!("{role} {place} stream, bytes {} {} [{}], {:?}", hex(&case.bytes), if case.fin { "+FIN" } else { "(open)" }, case.why, case.mode);
+    let mut out = Vec::new();
+    for p in &o.panics {
+        out.push((format!("C02:s2:{role}:{place}:panic@{}", explore::panics::short_loc(p)), format!("{ctx}: {p}")));
+    }
+    if o.horizon {
+        out.push((format!("C02:s2:{role}:{place}:livelock"), format!("{ctx}: still runnable after {HORIZON} polls")));
+        return out;
+    }
+    if !o.panics.is_empty() {
+        return out;
+    }
+    let name = |c: u64| code_name(c);
+    match o.close_codes.as_slice() {
+        [] => out.push((
+            format!("C02:s2:{role}:{place}:{}:not-reported", case.why),
+            format!("{ctx}: the connection was never closed (expected {}); driver {:?}, request {:?}", name(case.accept[0]), o.driver, o.msg.as_ref().map(|m| (m.head.clone(), m.body_end.clone(), m.trailers.clone(), m.stage.clone()))),
+        )),
+        [c] if case.accept.contains(c) => {}
+        [c] => out.push((format!("C02:s2:{role}:{place}:{}:code={}", case.why, name(*c)), format!("{ctx}: closed with {} ({c:#x}), expected {}", name(*c), case.accept.iter().map(|c| name(*c)).collect::<Vec<_>>().join(" or ")))),
+        many => {
+            if !many.iter().all(|c| *c == many[0]) || !case.accept.contains(&many[0]) {
+                out.push((format!("C02:s2:{role}:{place}:{}:close-codes-differ", case.why), format!("{ctx}: close() called with {many:x?}")));
+            }
+        }
+    }
+    // the driver reports the same error
+    if let (Some(c), Some(d)) = (o.close_codes.first(), o.driver.iter().find(|d| *d != "req")) {
+        let want = format!("Local({c:#x})");
+        if *d != want {
+            out.push((format!("C02:s2:{role}:{place}:driver-reports-other-error"), format!("{ctx}: close({c:#x}) on the wire but the driver reported {d}")));
+        }
+    }
+    out
+}
+
+/// The faulty strings: (bytes, fin, accepted codes, why) per place and role.
+pub fn cases(tier: Tier) -> Vec<Case> {
+    let thorough = tier == Tier::Thorough;
+    let v = |x: u64| varint::encode(x).unwrap();
+    let padded = |x: u64, len: usize| varint::encode_len(x, len).unwrap();
+    let frame = |ty: u64, declared: u64, payload: &[u8]| {
+        let mut b = v(ty);
+        b.extend(v(declared));
+        b.extend_from_slice(payload);
+        b
+    };
+    let mut out = Vec::new();
+    let modes: &[Mode] = &[Mode::Whole, Mode::PerByte, Mode::Explore];
+    let mut push = |server: bool, place: Where, bytes: Vec<u8>, fin: bool, accept: Vec<u64>, why: &'static str| {
+        for &mode in modes {
+            out.push(Case { server, place, bytes: bytes.clone(), fin, mode, accept: accept.clone(), why });
+        }
+    };
+    for server in [true, false] {
+        // ---- request stream: frames cut off by the end of the stream
+        let fe = vec![FRAME_ERROR];
+        push(server, Where::Request, frame(rf::DATA, 4, b"ab"), true, fe.clone(), "data-cut-by-fin");
+        push(server, Where::Request, frame(rf::DATA, 1, b""), true, fe.clone(), "data-cut-by-fin");
+        push(server, Where::Request, vec![0x00], true, fe.clone(), "header-cut-by-fin");
+        push(server, Where::Request, vec![0x40], true, fe.clone(), "type-varint-cut-by-fin");
+        push(server, Where::Request, vec![0x00, 0x40], true, fe.clone(), "length-varint-cut-by-fin");
+        push(server, Where::Request, frame(rf::HEADERS, 6, &TRAILER_SECTION[..3]), true, fe.clone(), "headers-cut-by-fin");
+        push(server, Where::Request, frame(0x21, 3, b"x"), true, fe.clone(), "grease-cut-by-fin");
+        push(server, Where::Request, frame(0x3fff_ffff_ffff_ffff, 2, b""), true, fe.clone(), "unknown-cut-by-fin");
+        if thorough {
+            let mut two = frame(rf::DATA, 2, b"ab");
+            two.extend(frame(rf::DATA, 3, b"c"));
+            push(server, Where::Request, two, true, fe.clone(), "second-data-cut-by-fin");
+            let mut p = padded(rf::DATA, 2);
+            p.extend(padded(5, 4));
+            p.extend_from_slice(b"abcd");
+            push(server, Where::Request, p, true, fe.clone(), "padded-data-cut-by-fin");
+        }
+        // frames that may not appear on a request stream AND are malformed: either error is right
+        let either = vec![FRAME_ERROR, FRAME_UNEXPECTED];
+        push(server, Where::Request, frame(rf::GOAWAY, 2, &[0x00, 0x00]), false, either.clone(), "goaway-payload-longer");
+        push(server, Where::Request, frame(rf::MAX_PUSH_ID, 1, &[0x40]), false, either.clone(), "max-push-id-payload-shorter");
+        push(server, Where::Request, frame(rf::CANCEL_PUSH, 0, &[]), false, either.clone(), "cancel-push-empty");
+        // ---- control stream (after SETTINGS)
+        push(server, Where::Control, frame(rf::GOAWAY, 2, &[0x00, 0x00]), false, fe.clone(), "goaway-payload-longer");
+        push(server, Where::Control, frame(rf::GOAWAY, 1, &[0x40]), false, fe.clone(), "goaway-payload-shorter");
+        push(server, Where::Control, frame(rf::GOAWAY, 0, &[]), false, fe.clone(), "goaway-empty");
+        push(server, Where::Control, frame(rf::CANCEL_PUSH, 3, &[0x00, 0x00, 0x00]), false, fe.clone(), "cancel-push-payload-longer");
+        push(server, Where::Control, frame(rf::CANCEL_PUSH, 1, &[0x80]), false, fe.clone(), "cancel-push-payload-shorter");
+        // MAX_PUSH_ID is only legal towards the server: for the client both errors are right
+        let mp = if server { fe.clone() } else { either.clone() };
+        push(server, Where::Control, frame(rf::MAX_PUSH_ID, 2, &[0x01, 0x02]), false, mp.clone(), "max-push-id-payload-longer");
+        push(server, Where::Control, frame(rf::MAX_PUSH_ID, 0, &[]), false, mp, "max-push-id-empty");
+        // cut off by the end of the (critical) stream: both the frame error and the closed critical stream are right
+        let crit = vec![FRAME_ERROR, CLOSED_CRITICAL];
+        push(server, Where::Control, frame(rf::GOAWAY, 4, &[0x80]), true, crit.clone(), "goaway-cut-by-fin");
+        push(server, Where::Control, vec![0x07], true, crit.clone(), "header-cut-by-fin");
+        push(server, Where::Control, frame(0x21, 3, b"x"), true, crit.clone(), "grease-cut-by-fin");
+        if thorough {
+            push(server, Where::Control, frame(rf::GOAWAY, 8, &[0xc0, 0, 0, 0, 0, 0, 0, 0x04, 0x00][..9]), false, vec![FRAME_ERROR], "goaway-8-byte-varint-plus-one");
+            let mut g = padded(rf::GOAWAY, 2);
+            g.extend(padded(3, 2));
+            g.extend_from_slice(&[0x00, 0x00, 0x00]);
+            push(server, Where::Control, g, false, fe.clone(), "padded-goaway-payload-longer");
+        }
+    }
+    let _ = (SETTINGS_ERROR, MISSING_SETTINGS);
+    out
+}
+
+fn case_json(c: &Case, choices: &[u32], seed: u64) -> Value {
+    json!({"seam":2,"server":c.server,"place": if c.place == Where::Request {"request"} else {"control"},"bytes":hex(&c.bytes),"fin":c.fin,
+        "mode": match c.mode { Mode::Whole => "whole", Mode::PerByte => "per-byte", Mode::Explore => "explore" },
+        "accept": c.accept, "why": c.why, "choices": choices, "seed": seed})
+}
+
+fn case_from_json(r: &Value) -> Case {
+    let why = r["why"].as_str().unwrap().to_string();
+    Case {
+        server: r["server"].as_bool().unwrap(),
+        place: if r["place"] == "request" { Where::Request } else { Where::Control },
+        bytes: explore::unhex(r["bytes"].as_str().unwrap()),
+        fin: r["fin"].as_bool().unwrap(),
+        mode: match r["mode"].as_str().unwrap() {
+            "whole" => Mode::Whole,
+            "per-byte" => Mode::PerByte,
+            _ => Mode::Explore,
+        },
+        accept: r["accept"].as_array().unwrap().iter().map(|x| x.as_u64().unwrap()).collect(),
+        why: Box::leak(why.into_boxed_str()),
+    }
+}
+
+pub fn run_into(args: &Args, total: &mut Acc) {
+    let bound = if args.tier == Tier::Thorough { 3 } else { 2 };
+    let cs = cases(args.tier);
+    let seed = args.seed;
+    let accs = explore::par::run(&cs, Acc::new, |_, case, acc| {
+        let caps = Caps { max_executions: 60_000, ..Caps::default() };
+        let mut viol = ViolSet::new();
+        let key = explore::fnv_str(&format!("{case:?}"));
+        let mut outcomes = Vec::new();
+        let mut nontrivial = Vec::new();
+        let b = if case.mode == Mode::Explore { bound } else { 0 };
+        let st = dfs::explore(
+            b,
+            &caps,
+            || execute(case, seed),
+            |e, o| {
+                outcomes.push(explore::fnv_str(&format!("{:?}{:?}", o.close_codes, o.driver)));
+                if e.cost > 0 || case.mode == Mode::PerByte {
+                    let mut f = Fnv::new();
+                    f.u64(key);
+                    for c in &e.choices {
+                        f.u64(*c as u64 + 1);
+                    }
+                    nontrivial.push(f.finish());
+                }
+                for (sig, msg) in judge(case, &o) {
+                    viol.add(sig, msg, (e.cost, case.bytes.len()), &e.choices);
+                }
+            },
+        );
+        if st.capped {
+            acc.capped_cases += 1;
+        }
+        acc.dfs.merge(&st);
+        acc.evaluations += st.executions;
+        for o in outcomes {
+            let mut f = Fnv::new();
+            f.u64(key);
+            f.u64(o);
+            acc.states.insert(f.finish());
+            acc.outcomes.insert(o);
+        }
+        acc.nontrivial.extend(nontrivial);
+        viol.drain_into(acc, |choices| case_json(case, choices, seed));
+    });
+    for a in accs {
+        total.merge(a);
+    }
+    total.count("seam2_cases", cs.len() as u64);
+    total.sample(|| json!({"seam":2,"role":"server","stream":"request","bytes_after_headers":"00046162","ending":"fin","reference":"close(H3_FRAME_ERROR)"}));
+}
+
+pub fn replay(r: &Value) -> i32 {
+    let case = case_from_json(r);
+    let seed = r["seed"].as_u64().unwrap_or(0);
+    let choices: Vec<u32> = r["choices"].as_array().map(|a| a.iter().map(|x| x.as_u64().unwrap() as u32).collect()).unwrap_or_default();
+    let (o, _, d) = dfs::replay(&choices, || execute(&case, seed));
+    let (o2, _, _) = dfs::replay(&choices, || execute(&case, seed));
+    if d.is_some() || o != o2 {
+        println!("REPLAY DIVERGED: {d:?}");
+        return 2;
+    }
+    println!("case: {case:?}");
+    println!("reference: close({})", case.accept.iter().map(|c| code_name(*c)).collect::<Vec<_>>().join(" or "));
+    println!("h3       : close codes {:x?}, driver {:?}, request {:?}, pending {:?}", o.close_codes, o.driver, o.msg, o.pending);
+    let v = judge(&case, &o);
+    for (sig, msg) in &v {
+        println!("observed: {sig}: {msg}");
+    }
+    if v.is_empty() {
+        println!("observed: no violation");
+        0
+    } else {
+        1
+    }
 }
